@@ -154,6 +154,8 @@ class Exec:
         self.feas_ms = feas_ms
         self.verbose = verbose
         self.obligations = []
+        self.opaque_fallback = True
+        self.opaque_used = []
         self.skip = set()  # (name, clause) already refuted by a ground counter-model: not re-solved
         self.only_props = None  # restrict solving to obligations tagged with one of these properties
         self.stats = dict(paths=0, queries=0, feas=0)
@@ -652,7 +654,9 @@ class Exec:
             self.assume(cl.fn(c, A))
         if self.emitting() and not self.prefix:
             # vacuity guard: the precondition must be satisfiable
-            s = self._solver(self.timeout_ms)
+            # satisfiability of a quantified precondition is decided in ground mode (finite universe);
+            # with quantifiers only a quick refutation attempt is made
+            s = self._solver(self.timeout_ms if self.mode == "g" else 1500)
             s.add(c.axioms)
             s.add(self.pc)
             r = self.zcheck(s)
@@ -679,11 +683,15 @@ class Exec:
         R = Res(self, A, nets, result, exc)
         if exc is None:
             tag = "exit:return@%s" % where
+            if isinstance(spec.result, str) and spec.result.startswith("net:") and not isinstance(result, VNet):
+                raise Unsupported("the returned network is built by code outside the modelled subset (%s)" % type(result).__name__)
             for cl in spec.ensures + spec.ensures_all:
                 self.prove("%s/%s/%s" % (self.fname, tag, cl.name), cl.name, cl.props, cl.fn(c, A, R), where, "post")
         else:
             tag = "exit:raise:%s@%s" % (exc, where)
             allowed = [k for k in spec.raises if exc_isa(exc, k)]
+            if exc == "AnyException":
+                allowed = []
             if not allowed and not spec.raises_any:
                 self.prove("%s/%s/exc-class" % (self.fname, tag), "exc-class", ("C05",), z3.BoolVal(False), where, "exc-class")
             for cl in spec.ensures_all:
@@ -705,7 +713,89 @@ class Exec:
         m = getattr(self, "st_" + type(st).__name__, None)
         if m is None:
             raise Unsupported("statement %s" % type(st).__name__)
+        if isinstance(st, (ast.Assign, ast.AugAssign, ast.AnnAssign, ast.Expr)) and self.opaque_fallback:
+            mark = (len(self.taken), len(self.pc))
+            try:
+                return m(st, env)
+            except Unsupported as e:
+                if not self.net_pure(st, env):
+                    raise
+                return self.opaque_stmt(st, env, str(e))
         return m(st, env)
+
+    # ------------------------------------------------------------------ opaque local computation
+    NET_WRITE_METHODS = {
+        "add_node", "add_nodes_from", "remove_node", "remove_nodes_from", "add_edge", "add_edges_from", "add_weighted_edges_from",
+        "remove_edge", "remove_edges_from", "add_node_to_edge", "remove_node_from_edge", "clear", "clear_edges", "double_edge_swap",
+        "random_edge_shuffle", "merge_duplicate_edges", "update", "set_node_attributes", "set_edge_attributes", "freeze",
+        "add_simplex", "add_simplices_from", "add_weighted_simplices_from", "remove_simplex_id", "remove_simplex_ids_from", "close",
+        "_add_simplex", "_add_face", "_remove_simplex_id", "cleanup", "__setitem__",
+    }
+
+    def net_pure(self, node, env):
+        """A statement / loop body is *net-pure* when it cannot write a network: no mutator call or
+        store through a name bound to a network, view, table or table entry, and no next() on a
+        counter.  Only such code may be abstracted to unknown local values."""
+        def rooted_in_net(e):
+            while isinstance(e, (ast.Attribute, ast.Subscript, ast.Call)):
+                e = e.value if not isinstance(e, ast.Call) else e.func
+            if isinstance(e, ast.Name):
+                v = env.get(e.id)
+                if isinstance(v, (VNet, VView, VDict, VCounter)):
+                    return True
+                if isinstance(v, (VSet, VAttr, VRec)) and v.home is not None:
+                    return True
+                if v is None and e.id in ("self",):
+                    return True
+            return False
+        from .frames import MUTATING_METHODS
+        for n in ast.walk(node):
+            if isinstance(n, ast.Call):
+                f = n.func
+                if isinstance(f, ast.Attribute) and (f.attr in self.NET_WRITE_METHODS or f.attr in MUTATING_METHODS) and rooted_in_net(f.value):
+                    return False
+                if isinstance(f, ast.Name) and f.id == "next" and n.args and rooted_in_net(n.args[0]):
+                    return False
+                if isinstance(f, ast.Name) and f.id in ("update_uid_counter",):
+                    return False
+                # a network handed to a module-level function with a contract or unknown effect
+                if isinstance(f, ast.Name) and resolve_function(f.id) is not None:
+                    return False
+            elif isinstance(n, (ast.Assign, ast.AugAssign, ast.Delete)):
+                tg = n.targets if not isinstance(n, ast.AugAssign) else [n.target]
+                for t in tg:
+                    for tt in (t.elts if isinstance(t, (ast.Tuple, ast.List)) else [t]):
+                        if isinstance(tt, (ast.Subscript, ast.Attribute)) and rooted_in_net(tt.value):
+                            return False
+                        if isinstance(tt, ast.Name) and isinstance(n, ast.AugAssign):
+                            v = env.get(tt.id)
+                            if isinstance(v, (VSet, VAttr, VRec)) and v.home is not None:
+                                return False
+        return True
+
+    def opaque_stmt(self, st, env, why):
+        """Abstract a net-pure statement the executor cannot interpret: every local object it names
+        is forgotten, its targets become unknown values, and it may raise (state unchanged)."""
+        c = self.c
+        self.opaque_used.append("%s: %s" % (self.where(st), why))
+        for n in ast.walk(st):
+            if isinstance(n, ast.Name):
+                v = env.get(n.id)
+                if isinstance(v, (VList, VSet, VAttr)) and getattr(v, "home", None) is None:
+                    self.havoc_obj(v)
+                elif isinstance(v, VDict) and getattr(v, "snapshot", False):
+                    pass
+        tg = []
+        if isinstance(st, ast.Assign):
+            tg = st.targets
+        elif isinstance(st, (ast.AugAssign, ast.AnnAssign)):
+            tg = [st.target]
+        for t in tg:
+            for tt in (t.elts if isinstance(t, (ast.Tuple, ast.List)) else [t]):
+                if isinstance(tt, ast.Name):
+                    env[tt.id] = VVal(c.fresh_id(tt.id))
+        if self.choose(2) == 1:
+            raise SymRaise("AnyException", self.where(st))
 
     def st_Pass(self, st, env):
         pass
@@ -900,6 +990,9 @@ class Exec:
     def handler_matches(self, h, cls, env):
         if h.type is None:
             return True
+        if cls == "AnyException":
+            # an exception of unknown class (raised by abstracted local code): any handler may catch it
+            return self.choose(2) == 0
         types = h.type.elts if isinstance(h.type, ast.Tuple) else [h.type]
         for t in types:
             name = t.attr if isinstance(t, ast.Attribute) else t.id
@@ -1088,7 +1181,15 @@ class Exec:
         if node.orelse:
             raise Unsupported("for/else")
         c = self.c
-        itv = self.ev(node.iter, env)
+        if self.opaque_fallback and self.find_loop_spec(node)[0] is None and self.net_pure(node, env):
+            try:
+                itv = self.ev(node.iter, env)
+            except Unsupported:
+                return self.local_loop(node, env, extract.header_text(node))
+            if not (isinstance(itv, VTuple) or (isinstance(itv, VList) and itv.items is not None)):
+                return self.local_loop(node, env, extract.header_text(node))
+        else:
+            itv = self.ev(node.iter, env)
         # concrete spine: unroll
         if isinstance(itv, VTuple) or (isinstance(itv, VList) and itv.items is not None):
             items = itv.items
@@ -1105,6 +1206,8 @@ class Exec:
             return self.for_range(node, itv, env)
         lspec, h = self.find_loop_spec(node)
         if lspec is None:
+            if self.opaque_fallback and self.net_pure(node, env):
+                return self.local_loop(node, env, h)
             raise Unsupported("no invariant for loop `%s`" % h)
         content, distinct, kind, src = self.iter_source(itv, node)
         if kind == "seq":
@@ -1194,6 +1297,20 @@ class Exec:
         else:
             raise Unsupported("list.extend with %s" % type(other).__name__)
         lst.ln = c.fresh("len", z3.IntSort())
+
+    def local_loop(self, node, env, h):
+        """A loop whose body cannot write a network needs no invariant: its locals are forgotten."""
+        c = self.c
+        self.opaque_used.append("local loop `%s`" % h)
+        names = self.objects_in(node.body, env)
+        for nm in sorted(names):
+            v = env.get(nm)
+            if isinstance(v, (VList, VSet, VAttr)) and getattr(v, "home", None) is None:
+                self.havoc_obj(v)
+        for nm in sorted(self.assigned_names(node.body + ([node.target] if isinstance(node, ast.For) else []))):
+            env[nm] = VVal(c.fresh_id(nm))
+        if self.choose(2) == 1:
+            raise SymRaise("AnyException", "[%s]" % h)
 
     def for_range(self, node, rng, env):
         raise Unsupported("for over range")
@@ -1839,15 +1956,30 @@ class Exec:
         for a in e.args:
             if isinstance(a, ast.Starred):
                 raise Unsupported("*args in call")
-            args.append(self.ev(a, env))
+            args.append(self.ev_arg(a, env))
         kw = {}
         star = None
         for k in e.keywords:
             if k.arg is None:
-                star = self.ev(k.value, env)
+                star = self.ev_arg(k.value, env)
             else:
-                kw[k.arg] = self.ev(k.value, env)
+                kw[k.arg] = self.ev_arg(k.value, env)
         return self.call(f, args, kw, star, e)
+
+    def ev_arg(self, a, env):
+        """An argument expression the executor cannot interpret is abstracted to an unknown value
+        when it is net-pure (it may raise; it cannot write a network)."""
+        if not self.opaque_fallback or isinstance(a, (ast.Name, ast.Constant, ast.Attribute)):
+            return self.ev(a, env)
+        try:
+            return self.ev(a, env)
+        except Unsupported as ex_:
+            if self.pure or not self.net_pure(a, env):
+                raise
+            self.opaque_used.append("argument `%s`: %s" % (extract.stmt_text(a, 40), ex_))
+            if self.choose(2) == 1:
+                raise SymRaise("AnyException", self.where(self.cur))
+            return VVal(self.c.fresh_id("arg"))
 
     def call(self, f, args, kw, star, node):
         from .builtins import call_builtin, call_method
@@ -1944,7 +2076,7 @@ class Exec:
         for nm, v in A.v.items():
             if isinstance(v, VVal) and v.term is not None:
                 self.consumed.append(v.term)  # the callee may have consumed a one-shot argument
-        excs = sorted(spec.raises)
+        excs = sorted(spec.raises) + (["AnyException"] if spec.raises_any else [])
         which = self.choose(1 + len(excs)) if excs else 0
         result = self.result_value(spec, A, nets)
         if which == 0:
@@ -1956,7 +2088,7 @@ class Exec:
             return result
         cls = excs[which - 1]
         R = Res(self, A, nets, None, cls)
-        for cl in spec.ensures_all + spec.raises[cls]:
+        for cl in spec.ensures_all + spec.raises.get(cls, []):
             self.assume(cl.fn(c, A, R))
         raise SymRaise(cls, w)
 
